@@ -66,9 +66,15 @@ fn main() {
       let mut n_h = 0;
       let deadline: f64 = arg(&args, "--deadline").and_then(|s| s.parse().ok()).unwrap_or(1e9);
       let mut skipped = 0;
+      let only = arg(&args, "--only");
       for (i, h) in plan.harnesses.iter().enumerate() {
         if i % sn != si {
           continue;
+        }
+        if let Some(o) = &only {
+          if !h.name().contains(o.as_str()) {
+            continue;
+          }
         }
         if t0.elapsed().as_secs_f64() > deadline {
           skipped += 1;
